@@ -23,7 +23,7 @@ def nextOK (t : Tok) (c : Char) : Bool :=
   match t with
   | .id _ | .kw _ | .not | .bin _ => !idChar c
   | .int _ => !idChar c && c != '.'
-  | .real _ => false
+  | .real _ => !idChar c
   | .str _ => c != '\''
   | .estr _ => true
   | .op o =>
@@ -43,11 +43,21 @@ def NoGlue (t : Tok) : List Char → Prop
   | [] => True
   | c :: _ => nextOK t c = true
 
+/-- exponent part of a real literal's spelling: nothing, or `e`/`E`, an optional sign, digits -/
+def ExpPart (ex : List Char) : Prop :=
+  ex = [] ∨ ∃ e sg xs, ex = e :: (sg ++ xs) ∧ (e = 'e' ∨ e = 'E') ∧ (sg = [] ∨ sg = ['+'] ∨ sg = ['-']) ∧ xs ≠ []
+    ∧ xs.all Char.isDigit = true
+
+/-- spelling of a real literal: digits, a point, digits (possibly none), optional exponent — what `printf("%#.15g")` and
+`real2exp` produce for a non-negative finite value -/
+def RealSp (s : List Char) : Prop :=
+  ∃ ds fs ex, s = ds ++ '.' :: (fs ++ ex) ∧ ds ≠ [] ∧ ds.all Char.isDigit = true ∧ fs.all Char.isDigit = true ∧ ExpPart ex
+
 /-- tokens the printer can emit and the scanner reads back -/
 def TokWF : Tok → Prop
   | .id s => (∃ c r, s.toList = c :: r ∧ c.isAlpha = true) ∧ s.toList.all idChar = true ∧ classify s.toList = some (.id s)
   | .kw s => s ∈ ["TRUE", "FALSE", "UNKNOWN", "PI", "CONST_E", "SELF", "QUERY", "?"]
-  | .real _ => False
+  | .real s => RealSp s
   | .str b => ∃ s, b = escQ s
   | .estr s => s.toList.all (· ≠ '"') = true
   | .bin s => s.toList ≠ [] ∧ s.toList.all (fun x => x = '0' ∨ x = '1') = true
@@ -367,13 +377,83 @@ theorem reads_bin (s : String) (h : TokWF (.bin s)) : ReadsTok (.bin s) := by
   | nil => exact absurd hs hne
   | cons c r => rw [← hs, String.ofList_toList]; simp [hs]
 
+theorem idChar_e : idChar 'e' = true ∧ idChar 'E' = true := by decide
+
+theorem takeWhile_digits (a r : List Char) (ha : a.all Char.isDigit = true) (hr : ∀ c r', r = c :: r' → Char.isDigit c = false) :
+    (a ++ r).takeWhile Char.isDigit = a ∧ (a ++ r).dropWhile Char.isDigit = r :=
+  takeWhile_append_of a r ha hr
+
+theorem reads_real (s : List Char) (h : TokWF (.real s)) : ReadsTok (.real s) := by
+  obtain ⟨ds, fs, ex, rfl, hne, hds, hfs, hex⟩ := h
+  intro rest hg
+  simp only [sp]
+  -- what follows is no identifier character: no digit, no `e`
+  have hrest : ∀ c r', rest = c :: r' → idChar c = false := by
+    intro c r' hh; subst hh
+    simp only [NoGlue, nextOK, Bool.or_eq_true] at hg
+    rcases hg with hg | hg
+    · exact isWs_not_idChar c hg
+    · simpa using hg
+  have hrestD : ∀ c r', rest = c :: r' → Char.isDigit c = false := by
+    intro c r' hh
+    cases hd : c.isDigit with
+    | false => rfl
+    | true => have := hrest c r' hh; rw [digit_idChar c hd] at this; cases this
+  obtain ⟨c0, ds', rfl⟩ : ∃ c0 ds', ds = c0 :: ds' := by
+    cases ds with
+    | nil => exact absurd rfl hne
+    | cons c0 ds' => exact ⟨c0, ds', rfl⟩
+  have hc0 : c0.isDigit = true := by simp only [List.all_cons, Bool.and_eq_true] at hds; exact hds.1
+  have h1 := takeWhile_digits (c0 :: ds') ('.' :: (fs ++ ex ++ rest)) hds (by intro c r' hh; cases hh; decide)
+  have hexhead : ∀ c r', ex ++ rest = c :: r' → Char.isDigit c = false := by
+    intro c r' hh
+    rcases hex with rfl | ⟨e, sg, xs, rfl, he, _, _, _⟩
+    · exact hrestD c r' (by simpa using hh)
+    · simp only [List.cons_append] at hh; cases hh; rcases he with rfl | rfl <;> decide
+  have h2 := takeWhile_digits fs (ex ++ rest) hfs hexhead
+  have hassoc : (c0 :: ds' ++ '.' :: (fs ++ ex)) ++ rest = (c0 :: ds') ++ '.' :: (fs ++ ex ++ rest) := by simp [List.append_assoc]
+  rw [hassoc]
+  simp only [List.cons_append] at h1 ⊢
+  simp only [lexTok, digit_not_alpha c0 hc0, hc0, Bool.false_eq_true, if_false, if_true, h1]
+  simp only [List.append_assoc] at h2 ⊢
+  simp only [h2]
+  rcases hex with rfl | ⟨e, sg, xs, rfl, he, hsg, hxne, hxs⟩
+  · simp only [List.nil_append, List.append_nil]
+    cases rest with
+    | nil => rfl
+    | cons c r3 =>
+      have hc := hrest c r3 rfl
+      have hce : ¬ (c = 'e' ∨ c = 'E') := by
+        rintro (rfl | rfl)
+        · rw [idChar_e.1] at hc; cases hc
+        · rw [idChar_e.2] at hc; cases hc
+      simp [hce]
+  · have hx := takeWhile_digits xs rest hxs hrestD
+    obtain ⟨x0, xs', rfl⟩ : ∃ x0 xs', xs = x0 :: xs' := by
+      cases xs with
+      | nil => exact absurd rfl hxne
+      | cons x0 xs' => exact ⟨x0, xs', rfl⟩
+    have hx0 : x0.isDigit = true := by simp only [List.all_cons, Bool.and_eq_true] at hxs; exact hxs.1
+    have hx0p : x0 ≠ '+' := by rintro rfl; revert hx0; decide
+    have hx0m : x0 ≠ '-' := by rintro rfl; revert hx0; decide
+    simp only [List.cons_append, List.append_assoc] at hx ⊢
+    simp only [he, if_true]
+    rcases hsg with rfl | rfl | rfl
+    · simp only [List.nil_append, List.cons_append]
+      split
+      · next r4 heq => cases heq; exact absurd rfl hx0p
+      · next r4 heq => cases heq; exact absurd rfl hx0m
+      · simp [hx]
+    · simp [hx]
+    · simp [hx]
+
 /-- **Every token the printer emits is read back by the scanner model**, whatever follows it, as long as the next
 character cannot extend it (`NoGlue`) -/
 theorem reads_of_wf (t : Tok) (h : TokWF t) : ReadsTok t := by
   cases t with
   | id s => exact reads_id s h
   | int n => exact reads_int n
-  | real s => exact absurd h (by simp [TokWF])
+  | real s => exact reads_real s h
   | str b => exact reads_str b h
   | estr s => exact reads_estr s h
   | bin s => exact reads_bin s h
@@ -417,6 +497,29 @@ theorem idChar_not_ws (c : Char) (h : idChar c = true) : isWsC c = false := by
   | false => rfl
   | true => have := isWs_not_idChar c hw; rw [h] at this; cases this
 
+theorem realSp_not_ws (s : List Char) (h : RealSp s) : ∀ c ∈ s, isWsC c = false := by
+  obtain ⟨ds, fs, ex, rfl, _, hds, hfs, hex⟩ := h
+  have dig : ∀ (l : List Char), l.all Char.isDigit = true → ∀ c ∈ l, isWsC c = false := by
+    intro l hl c hc
+    simp only [List.all_eq_true] at hl
+    exact idChar_not_ws c (digit_idChar c (hl c hc))
+  intro c hc
+  simp only [List.mem_append, List.mem_cons] at hc
+  rcases hc with hc | rfl | hc | hc
+  · exact dig ds hds c hc
+  · decide
+  · exact dig fs hfs c hc
+  · rcases hex with rfl | ⟨e, sg, xs, rfl, he, hsg, _, hxs⟩
+    · cases hc
+    · simp only [List.mem_cons, List.mem_append] at hc
+      rcases hc with rfl | hc | hc
+      · rcases he with rfl | rfl <;> decide
+      · rcases hsg with rfl | rfl | rfl
+        · cases hc
+        · simp at hc; subst hc; decide
+        · simp at hc; subst hc; decide
+      · exact dig xs hxs c hc
+
 theorem sp_ends (t : Tok) (h : TokWF t) :
     ∃ c d r, sp t = c :: r ∧ isWsC c = false ∧ (sp t).getLast? = some d ∧ isWsC d = false := by
   cases t with
@@ -438,7 +541,16 @@ theorem sp_ends (t : Tok) (h : TokWF t) :
       obtain ⟨d, hdl⟩ := hl
       refine ⟨c, d, r, rfl, idChar_not_ws c (digit_idChar c (hdig c (by rw [hd]; simp))), hdl, ?_⟩
       exact idChar_not_ws d (digit_idChar d (hdig d (by rw [hd]; exact List.mem_of_getLast? hdl)))
-  | real s => exact absurd h (by simp [TokWF])
+  | real s =>
+    have hall := realSp_not_ws s h
+    obtain ⟨ds, fs, ex, hs, hne, _, _, _⟩ := h
+    cases hsl : s with
+    | nil => rw [hs] at hsl; simp at hsl
+    | cons c r =>
+      have hl : ∃ d, (c :: r).getLast? = some d := ⟨_, (List.getLast?_eq_some_getLast (by simp))⟩
+      obtain ⟨d, hdl⟩ := hl
+      simp only [sp]
+      exact ⟨c, d, r, rfl, hall c (by rw [hsl]; simp), hdl, hall d (by rw [hsl]; exact List.mem_of_getLast? hdl)⟩
   | str b => exact ⟨'\'', '\'', b ++ ['\''], rfl, by decide, by simp only [sp]; rw [List.getLast?_append]; simp, by decide⟩
   | estr s => exact ⟨'"', '"', s.toList ++ ['"'], rfl, by decide, by simp only [sp]; rw [List.getLast?_append]; simp, by decide⟩
   | bin s =>
